@@ -114,3 +114,44 @@ Definition sync_skeleton : list (bytes * list bytes) := [
     bs "call t.setFd(nil).Close";
     bs "return";
     bs "return"])].
+
+(* the Open functions (C10: the transport is closed in every failure case) *)
+Definition open_skeleton : list (bytes * list bytes) := [
+  (* channel/channel.go Channel.Open *)
+  (bs "channel_Open",
+   [bs "call c.t.Open";
+    bs "return err";
+    bs "defer{";
+    bs "call c.Close";
+    bs "}";
+    bs "go c.read";
+    bs "return nil";
+    bs "return err";
+    bs "return err";
+    bs "return nil"]);
+  (* driver/generic/driver.go Driver.Open *)
+  (bs "generic_Open",
+   [bs "call d.Channel.Open";
+    bs "return err";
+    bs "call d.Channel.Close";
+    bs "return err";
+    bs "return nil"]);
+  (* driver/network/driver.go Driver.Open *)
+  (bs "network_Open",
+   [bs "call d.Driver.Open";
+    bs "return err";
+    bs "call d.Channel.Close";
+    bs "return err";
+    bs "return nil"]);
+  (* driver/netconf/driver.go Driver.Open *)
+  (bs "netconf_Open",
+   [bs "call d.Channel.Open";
+    bs "return err";
+    bs "defer{";
+    bs "call d.Channel.Close";
+    bs "}";
+    bs "return err";
+    bs "return err";
+    bs "return err";
+    bs "go d.read";
+    bs "return nil"])].
